@@ -38,7 +38,7 @@ ASSUMPTIONS = ["when a new-date notification must be sent is not stated by the p
                "episodes aborted by TrackRecord's duplicate-timestamp rejection (DESIGN 4.2-c) are judged on the delivered prefix"]
 REQUIRED = ["C04:exchange-exactly-once", "C04:delivery-sequence", "C04:second-observer", "C04:timestamps-nondecreasing", "C04:env-notification-stamp",
             "C04:clock-in-callback", "C04:rebalance-stamp", "C04:latency-refused"]
-REQUIRED_CATS = ["grid-extended-then-second-env", "observer:inherited-callbacks", "second-env-same-transmitter", "events-added-on-empty-timesteps-then-second-env", "add_timesteps", "add_custom_events", "latency>0", "markov", "warmup", "late-fold", "episode-length", "event-after-grid", "event-before-grid",
+REQUIRED_CATS = ["refused-construction-on-the-same-transmitter", "grid-extended-then-second-env", "observer:inherited-callbacks", "second-env-same-transmitter", "events-added-on-empty-timesteps-then-second-env", "add_timesteps", "add_custom_events", "latency>0", "markov", "warmup", "late-fold", "episode-length", "event-after-grid", "event-before-grid",
                  "event-at-latency-bound"]
 REQUIRED_HITS = ["Broker.rebalance"]
 TECHNIQUE = "runtime monitoring: recording observer + hook markers compared with an independent delivery-schedule model"
@@ -227,6 +227,14 @@ def case(ctx, i, tier):
                 sink.env = env
                 epmon.sinks.append(sink)
                 ctx.cat("second-env-same-transmitter")
+            if run_i in (1, 2) and rng.random() < 0.3:
+                # the caller tries to build ANOTHER environment on this transmitter with a latency the grid cannot
+                # carry; the construction is refused (ValueError) and the first environment goes on being used
+                try:
+                    TradingEnv(action_space=BoxPortfolio([ETF("X")]), transmitter=tr, latency=float(min(gaps)) + rng.choice([0, 1, 3600]))
+                    ctx.violation("C04:latency-refused", latency=min(gaps), min_gap=min(gaps), second_env=True)
+                except ValueError:
+                    ctx.cat("refused-construction-on-the-same-transmitter")
             s, e_ = folds[fold]
             steps = sorted({G[slot(e)] for e in live if s <= G[slot(e)] <= e_})
             del sink.log[:]
